@@ -170,3 +170,13 @@ Example C07_module_attribution_example :
   exists m t, merge [ex_core; ex_ext] (lit "1.2") = Ok m /\ tfind (m_types m) (lit "doc") = Some t /\
               module_for_relation t (lit "editor") = Some (lit "ext") /\ module_for_relation t (lit "viewer") = Some (lit "core").
 Proof. split; [vm_compute; reflexivity|]. split; [vm_compute; reflexivity|]. eexists. eexists. split; [vm_compute; reflexivity|]. vm_compute. repeat split; reflexivity. Qed.
+
+(* THE LAST CLAUSE — "on any conflict an error is returned naming the offending file": every error of a failed merge names
+   a file of the list, a conflict by the name of the file it was found in and the DSL errors of a file by that file's
+   position in the list (the implementation writes the file's name into them: defect F16, repaired; compared by name in the
+   correspondence) — for every list of files with distinct names *)
+From Verif Require Import Proofs.MergeErrFiles.
+Theorem C07_every_error_names_a_file : forall fs v es,
+  NoDup (map mf_name fs) -> merge fs v = Err es ->
+  Forall (names_ok (map mf_name fs) (length fs)) es.
+Proof. intros fs v es Hnd H. exact (merge_errors_name_files fs v es (wf_modules_of_parsed fs Hnd) H). Qed.
